@@ -10,7 +10,7 @@ claim('C08', 'exploration',
       'DESIGN.md 4 C08')
 claim('C03', 'exploration',
       'deterministic simulation: seeded federation runs with a non-conforming IdP node, misrouting and delay faults; reference profile model',
-      'A genuinely signing but non-conforming IdP is wrong in exactly one of 22 respects at a drawn assertion position; the transport may misroute a response minted for another SP or delay it past expiry; every accept is checked against a reference profile model evaluated on the returned structure at the SP node clock, every single fault must yield the typed error naming the element. Directed prefix over fault x position x count x placement x issuer-configured, then seeded exploration.',
+      'A genuinely signing but non-conforming IdP is wrong in exactly one of 23 respects at a drawn assertion position (assertions plain or encrypted; the exported Validate is also called directly on an application-decoded message); the transport may misroute a response minted for another SP or delay it past expiry; every accept is checked against a reference profile model evaluated on the returned structure at the SP node clock, every single fault must yield the typed error naming the element. Directed prefix over fault x position x count x placement x issuer-configured, then seeded exploration.',
       'trusted: stub IdP signer; error identity compared by Go type and SAML name only',
       'DESIGN.md 4 C03')
 claim('C06', 'exploration',
@@ -25,7 +25,7 @@ claim('C02', 'fault_enumeration',
       'DESIGN.md 4 C02')
 claim('C01', 'exploration',
       'deterministic simulation: byzantine transport over a history of genuine messages; conservation oracle over the IdP issue log',
-      'A trusted IdP, an untrusted IdP and an attacker share the simulated network; the adversary builds every delivered message from the history of genuine messages with 20 operators (XSW wrap catalogue, splice, strip, re-sign, trusted-certificate-foreign-key, evil sibling, nesting, duplicate, shadow attribute, comment/CDATA, namespace tricks, relocate/swap signatures, attacker-encrypt, replay after roll-over), raw or DEFLATE. At every accept each returned assertion must equal, field for field, an issue-log unit signed by a store member valid at the SP clock, sit directly under the Response, and the summary must come from the first such assertion. Directed prefix enumerates operator x victim placement x parameters; the rest is seeded search.',
+      'A trusted IdP, an untrusted IdP and an attacker share the simulated network; the adversary builds every delivered message from the history of genuine messages with 28 operators (XSW wrap catalogue, splice, strip, re-sign, trusted-certificate-foreign-key, evil sibling, nesting, duplicate, shadow attribute, comment/CDATA, namespace tricks, relocate/swap signatures, attacker-encrypt, replay after roll-over), raw or DEFLATE. At every accept each returned assertion must equal, field for field, an issue-log unit signed by a store member valid at the SP clock, sit directly under the Response, and the summary must come from the first such assertion. Directed prefix enumerates operator x victim placement x parameters; the rest is seeded search.',
       'trusted: stub IdP issue log and normaliser; universality over all byte strings is sampled, not proved',
       'DESIGN.md 4 C01')
 claim('C04', 'exploration',
@@ -60,8 +60,8 @@ claim('C12', 'fault_enumeration',
       'DESIGN.md 4 C12')
 claim('C20', 'exploration',
       'deterministic simulation (thin fit): multi-IdP router scenario, pre-decode vs validation agreement on every accept',
-      'Two IdPs and one SP configuration per IdP sit behind a router stub that calls the real DecodeUnverified* first; SSO Responses and LogoutResponses are issued in every layout of C08 and, where the envelope is not signed or checking is off, shaped by 19 envelope operators (duplicated / shadowed root attributes, several / nested / foreign-namespace Issuers, comments, CDATA, character references), raw or DEFLATE. Whenever validation under any configuration accepts, the pre-decode must have succeeded with equal ID, InResponseTo, Destination, Version and Issuer and the routed-to configuration must be the accepting one. No fault or schedule is essential; the simulator contributes the multi-party routing scenario and the workload.',
-      'envelope shaping is only applied where an attacker could apply it (unsigned envelope or checking off); a colluding IdP signing shadowed attributes is outside the run space',
+      'Two IdPs and one SP configuration per IdP sit behind a router stub that calls the real DecodeUnverified* first; SSO Responses and LogoutResponses are issued in every layout of C08 and, where the envelope is not signed or checking is off, shaped by 27 envelope operators (duplicated / shadowed root attributes, several / nested / foreign-namespace Issuers, comments, CDATA, character references, encrypted non-assertion children), and on signed envelopes too by the operators exclusive canonicalisation cannot see (declarations of unused prefixes spelled like attributes, a second top-level element), raw or DEFLATE, up to megabytes. Whenever validation under any configuration accepts, the pre-decode must have succeeded with equal ID, InResponseTo, Destination, Version and Issuer and the routed-to configuration must be the accepting one. No fault or schedule is essential; the simulator contributes the multi-party routing scenario and the workload.',
+      'envelope shaping is only applied where an attacker could apply it (unsigned envelope, checking off, or content a signature under exclusive canonicalisation does not cover); a colluding IdP signing shadowed attributes is outside the run space',
       'DESIGN.md 4 C20')
 claim('C13', 'exploration',
       'deterministic simulation: SP->IdP leg with a strict recipient (conforming XML front end, goxmldsig verification, independent placement/algorithm/certificate checks) over key-configuration histories',
